@@ -97,6 +97,7 @@ theorem allMoves_legalShape (p : Pos) (h3 : 3 â‰¤ p.cfg.size) (h8 : p.cfg.size â
     LegalShape p.cfg.size m :=
   allMoves_legalShape' p h3 h8 m hm
 
+/-- the same over C01's invariant (`WF` carries the size bounds) -/
 theorem allMoves_legalShape_wf (basis : Array W) (p : Pos) (hwf : WF basis p) (m : Move) (hm : m âˆˆ p.allMoves) :
     LegalShape p.cfg.size m :=
   allMoves_legalShape p hwf.size_ge hwf.size_le m hm
